@@ -173,6 +173,14 @@ type Entry struct {
 	// LooseTrail marks entries written by `klog pause`: trailing blanks of their summary lines
 	// are not compared (klog writes `-0m foo ` when there are no tags to append; cosmetic).
 	LooseTrail bool `json:",omitempty"`
+
+	// CarryBase/CarryTags are set on the entry predicted for `klog pause` (without --no-tags): the
+	// summary the user gave and the open range's tags. Summary holds base + all tags (what klog
+	// does today); the property only asks that the tags are carried over, so a summary that
+	// starts with the base, appends nothing but some of these tags and contains all of them (in
+	// the base or the appended part) is equally acceptable. See PauseSummaryAcceptable.
+	CarryBase []Text   `json:",omitempty"`
+	CarryTags []string `json:",omitempty"`
 }
 
 // Spaces is the "spaces around dash" notation fact (klog derives it from the left side only).
